@@ -469,4 +469,47 @@ theorem old_cache_defect_witness :
     (Old.RCache.new 24).insert [97] sGET [] 24 90000 = .err "hang" := by
   refine ⟨⟨_, _, rfl, rfl, ?_, ?_⟩, ?_⟩ <;> decide
 
+/-! ### deepening round: did:key as a function of the identifier (vdr/didkey/resolver.go) -/
+
+/-- the multicodec switch of `didkey.Resolver.Resolve` (case order, constant values from the go-multicodec version of
+    go.mod, what each case does with the key bytes), its refusing `default`, and the checks before it -/
+theorem fact_did_key_table :
+    Facts.C18.didKeyTable = [(235, "Bls12_381G2Pub", .unsupported), (236, "X25519Pub", .fixedLen 32), (237, "Ed25519Pub", .fixedLen 32),
+      (231, "Secp256k1Pub", .unsupported), (4608, "P256Pub", .ec (some 33)), (4609, "P384Pub", .ec (some 49)), (4610, "P521Pub", .ec none),
+      (4613, "RsaPub", .rsa)] ∧ Facts.C18.didKeyDefaultRefuses = true ∧
+    Facts.C18.didKeyPrelude = ["id.Method != MethodName", "len(encodedKey) == 0 || encodedKey[0] != 'z'", "err != nil", "err != nil", "err != nil"] := by decide
+
+/-- **did:key acceptance is sound**: for EVERY identifier, base58 verdict and library verdicts, if the resolver's
+    decision procedure accepts, the identifier starts with `z`, its bytes start with a varint naming one of the six
+    supported public-key codecs, and the key bytes have that codec's length (32 / 33 / 49) resp. passed the curve /
+    PKCS#1 + 2048-bit checks.  (Together with `id_bound` / `jwk_key_pure`: the document is a function of the identifier.) -/
+theorem did_key_accept_sound (id : Bytes) (decoded : Option Bytes) (lib : KeyLib)
+    (h : resolveKeyClass Facts.C18.didKeyTable id decoded lib = .ok) :
+    id.head? = some cZ ∧ ∃ mc code key, decoded = some mc ∧ readUvarint mc = .ok (code, key) ∧
+      (((code = 236 ∨ code = 237) ∧ key.length = 32) ∨ (code = 4608 ∧ key.length = 33 ∧ lib.ecOK = true) ∨
+       (code = 4609 ∧ key.length = 49 ∧ lib.ecOK = true) ∨ (code = 4610 ∧ lib.ecOK = true) ∨
+       (code = 4613 ∧ lib.rsa ≠ "parse" ∧ lib.rsa ≠ "small")) :=
+  did_key_accept_sound' id decoded lib h
+
+/-- **Round trip of the multicodec prefix** (`binary.AppendUvarint` / `binary.ReadUvarint` as modelled): every 64-bit
+    codec value, canonically encoded and followed by any key bytes, reads back as that value with the key bytes intact -/
+theorem multicodec_prefix_roundtrip (n : Nat) (hn : n < 2 ^ 64) (rest : Bytes) :
+    readUvarint (appendUvarint n ++ rest) = .ok (n, rest) :=
+  readUvarint_append n hn rest
+
+/-- non-vacuity: an Ed25519 identifier (0xed 0x01 + 32 bytes) is accepted; 31 bytes, secp256k1 (0xe7 0x01), an
+    11-byte varint and a truncated varint are refused at the modelled sites -/
+example :
+    let k32 : Bytes := List.replicate 32 7
+    resolveKeyClass Facts.C18.didKeyTable [122, 54] (some ([237, 1] ++ k32)) {} = .ok ∧
+    resolveKeyClass Facts.C18.didKeyTable [122, 54] (some ([237, 1] ++ k32.tail)) {} = .len ∧
+    resolveKeyClass Facts.C18.didKeyTable [122, 54] (some ([231, 1] ++ k32)) {} = .unsupported "Secp256k1Pub" ∧
+    resolveKeyClass Facts.C18.didKeyTable [122, 54] (some (List.replicate 10 255 ++ [1])) {} = .multicodec ∧
+    resolveKeyClass Facts.C18.didKeyTable [122, 54] (some [237]) {} = .multicodec ∧
+    resolveKeyClass Facts.C18.didKeyTable [54] (some ([237, 1] ++ k32)) {} = .noz ∧
+    readUvarint [128, 36, 9] = .ok (4608, [9]) := by decide
+
+example : readUvarint (appendUvarint 4613 ++ [48, 130]) = .ok (4613, [48, 130]) :=
+  multicodec_prefix_roundtrip 4613 (by decide) [48, 130]
+
 end Nuts.C18.Props
